@@ -5,6 +5,7 @@ import http.client
 import io
 import itertools
 import os
+import re
 import types
 import urllib.parse
 import xml.etree.ElementTree as ET
@@ -33,9 +34,14 @@ def rand_component(rng, maxlen=8, allow_dot_start=False):
         if rng.random() < 0.25:
             s = rng.choice(["%20", "%2F", "%41", "%", "%%", "%zz", "%C3%A9", "%c3", "+", "a%20b", "%25", "%2e%2e", "%3F", "%23",
                             "%ff", "%E2%82", "..x", "x..", "...", "a;b", "a?b", "a#b", "http:", "a:b", "@", "~x", "x~y"]) + s
+        if rng.random() < 0.2:
+            # a name on the border between the codecs the request path crosses (see codec_readings)
+            rd = codec_readings(s)
+            if rd:
+                s = rng.choice(rd)[1]
         if rng.random() < 0.3:
             s += rng.choice([".ics", ".vcf", ".ics", ""])
-        if "/" in s or s in (".", "..") or not s:
+        if "/" in s or s in (".", "..") or not s or len(s.splitlines()) > 1:
             continue
         if "\t" in s or "\n" in s or "\r" in s or "\x00" in s:
             continue
@@ -44,6 +50,47 @@ def rand_component(rng, maxlen=8, allow_dot_start=False):
         if len(s.encode("utf-8")) > 120:
             continue
         return s
+
+
+# ------------------------------------------------------------------ names on the border between two codecs
+# A request path crosses several codecs between the client and the storage: percent-encoding on the wire, UTF-8 below it,
+# ISO-8859-1 where WSGI carries bytes in "native strings", the charset of [encoding] request for bodies.  A site that
+# applies one of them once too often or once too seldom is the identity on every name that is a fixed point of the
+# extra step -- all ASCII names, and nearly every name drawn at random from a Unicode alphabet (the ISO-8859-1 bytes of
+# random non-ASCII text are not UTF-8).  The names that tell the sites apart are the texts that ARE a reading of some
+# other name under a pair of codecs: for every name n, n's bytes in codec A read in codec B.
+CODEC_PAIRS = [("utf-8", "iso-8859-1"), ("utf-8", "cp1252"), ("iso-8859-1", "utf-8"), ("cp1252", "utf-8")]
+READING_KINDS = ["%s-as-%s" % ab for ab in CODEC_PAIRS] + ["percent", "percent-twice", "percent-lower", "unquoted"]
+
+
+def codec_readings(s):
+    """[(kind, text)]: the texts, different from `s`, that the bytes of `s` stand for under another codec of the
+    request path (mojibake in both directions), and the percent-encoded / doubly encoded / decoded spellings of `s`
+    taken as NAMES.  Texts with a character that cannot be in a path component or that ends a line are left out."""
+    out = []
+    for a, b in CODEC_PAIRS:
+        try:
+            t = s.encode(a).decode(b)
+        except UnicodeError:
+            continue
+        out.append(("%s-as-%s" % (a, b), t))
+    try:
+        q = urllib.parse.quote(s, safe="")
+        out += [("percent", q), ("percent-twice", urllib.parse.quote(q, safe="")),
+                ("percent-lower", re.sub(r"%[0-9A-F]{2}", lambda m: m.group(0).lower(), q))]
+    except UnicodeEncodeError:
+        pass
+    out.append(("unquoted", urllib.parse.unquote(s)))
+    return [(k, t) for k, t in out
+            if t != s and t and "/" not in t and t not in (".", "..") and len(t.splitlines()) == 1
+            and not any(ord(c) < 32 or 0xD800 <= ord(c) <= 0xDFFF for c in t)]
+
+
+def reading_of(s, kind):
+    for k, t in codec_readings(s):
+        if k == kind:
+            return t
+    return None
 
 
 def rand_prefix(rng):
